@@ -230,6 +230,12 @@ func runProperty(g *Gen, prop, tier, out string, cfg SolverCfg, t0 time.Time) in
 				if ob.Info {
 					continue
 				}
+				if ob.ExitCover {
+					if ob.Result == "unsat" {
+						assumptions["note ("+r.Unit+"): the return at "+ob.Pos+" is unreachable under the contracts in force (its postconditions hold vacuously)"] = true
+					}
+					continue
+				}
 				covers++
 				if ob.Result == "sat" {
 					coversOK++
@@ -386,7 +392,9 @@ func runProperty(g *Gen, prop, tier, out string, cfg SolverCfg, t0 time.Time) in
 	if os.Getenv("GOVC_WRITE_BASELINE") != "" && nViol == 0 {
 		var names []string
 		for n := range seen {
-			names = append(names, n)
+			if baselineKind(n) {
+				names = append(names, n)
+			}
 		}
 		sort.Strings(names)
 		os.MkdirAll(filepath.Join(out, "baseline"), 0o755)
@@ -437,4 +445,17 @@ func cfgDirOf(out string) string {
 		return d
 	}
 	return out
+}
+
+// baselineKind: only obligations that come from contract clauses (postconditions, loop
+// invariants, anchored asserts) are listed in the baseline. Automatically generated safety,
+// frame, lock and cover obligations are numbered by occurrence and legitimately change with
+// harmless edits of the code, so their absence is not an alarm.
+func baselineKind(full string) bool {
+	i := strings.Index(full, "/")
+	if i < 0 {
+		return false
+	}
+	n := full[i+1:]
+	return strings.HasPrefix(n, "ensures#") || strings.HasPrefix(n, "at:") || (strings.HasPrefix(n, "loop") && strings.Contains(n, "/inv-") && !strings.Contains(n, "#auto"))
 }
